@@ -7,10 +7,11 @@ vars == <<l, verdict>>
 
 JudgeAr(rec) ==
     LET ms == rec.in.members IN
-    Checks(IF ms = <<>> THEN "empty-archive" ELSE "wellformed",
+    Guarded(IF ms = <<>> THEN "empty-archive" ELSE "wellformed",
        << <<~rec.panic, "panic">>,
           <<rec.in.bytes = RenderAr(ms, rec.in.gnu), "vector bytes are not the rendering of the model">>,
-          <<Len(rec.steps) = Len(ms) + 1, "wrong number of members returned">>,
+          <<Len(rec.steps) = Len(ms) + 1, "wrong number of members returned">> >>,
+       <<
           <<IterationExact(rec.steps, ms), "member metadata, bytes or offsets differ from the archive">>,
           <<\A k \in 1..Len(ms) : ~rec.steps[k].read_err /\ ~rec.steps[k].seek_err, "member reader failed">>,
           <<Len(rec.late) = Len(ms) /\ \A k \in 1..Len(ms) : rec.late[k] = ms[k].data,
@@ -20,9 +21,10 @@ JudgeArBig(rec) ==
     LET ms == rec.in.members
         off[k \in 1..(Len(ms) + 1)] ==
             IF k = 1 THEN 8 ELSE off[k - 1] + 60 + ms[k - 1].size + (ms[k - 1].size % 2)
-    IN Checks(IF ms = <<>> THEN "empty-archive" ELSE "wellformed-large",
+    IN Guarded(IF ms = <<>> THEN "empty-archive" ELSE "wellformed-large",
        << <<~rec.panic, "panic">>,
-          <<Len(rec.steps) = Len(ms) + 1 /\ rec.steps[Len(rec.steps)].ret = "eof", "wrong number of members returned">>,
+          <<Len(rec.steps) = Len(ms) + 1 /\ rec.steps[Len(rec.steps)].ret = "eof", "wrong number of members returned">> >>,
+       <<
           <<\A k \in 1..Len(ms) :
                LET s == rec.steps[k]  m == ms[k] IN
                /\ s.ret = "member" /\ s.name = m.name /\ s.hdr_off = off[k]
